@@ -55,6 +55,8 @@ def get_fnode(spec):
 
 def run_path(spec, fnode, script):
   """Execute one path; returns the Exec (obligations, alternatives)."""
+  from . import sorts as _s
+  _s.USED_SORTS.clear()
   ex = Exec(spec, script)
   ex.number_loops(fnode)
   env = Env(None)
